@@ -95,8 +95,24 @@ def bool_tested(fn, steps, truth, sw_bb, depth=0):
         if nm in ("eq", "ne") and len(c.args) == 2:
             op = "Eq" if (nm == "eq") == truth else "Ne"
             out.append(Fact("cmp", sw_bb, op=op, lhs=fn.origin(c.args[0]), rhs=fn.origin(c.args[1]), raw_op=nm, truth=truth))
-    elif k == "const":
-        pass
+    elif k == "multi":
+        # a bool variable assigned on several paths (match arms): the fact holds for whichever definition ran
+        local = last[1]
+        defs = []
+        for (dbb, si, dk, payload) in fn.defs().get(local, []):
+            if fn.is_cleanup(dbb):
+                continue
+            if dk == "call":
+                defs.append((dbb, [("call", Call(fn, dbb, payload, False), [])]))
+            elif dk == "assign" and not payload["p"][1]:
+                r = payload["r"]
+                if r[0] == "use":
+                    defs.append((dbb, fn.origin(r[1])))
+                else:
+                    defs.append((dbb, [(r[0], r, [])]))
+            else:
+                defs.append((dbb, [("other", payload, [])]))
+        out.append(Fact("boolphi", sw_bb, local=local, truth=truth, defs=defs))
     return out
 
 
@@ -133,8 +149,56 @@ def edge_facts(fn, prog, d, labels):
     return out
 
 
+SAME_VARIANT = r"::(map|map_err|as_ref|as_mut|as_deref|as_deref_mut|copied|cloned|inspect|inspect_err)$"
+
+
+def derive(fn, prog, facts):
+    """Close a fact list under the option/result/bool combinator idioms:
+    branch(x) is Continue => x is Ok/Some; ok_or[_else](y) is Ok => y is Some; then[_some](b) is Some => b is true; ..."""
+    out = list(facts)
+    work = list(facts)
+    seen = 0
+    while work and seen < 200:
+        seen += 1
+        f = work.pop()
+        new = []
+        if f.kind == "variant" and f.allowed is not None and len(f.allowed) == 1 and f.steps and f.steps[-1][0] == "call":
+            # only a test of the whole call result (no payload projection) tells something about the call
+            if any(pr[0] in ("dc", "f") for st in f.steps for pr in (st[2] if len(st) > 2 else [])):
+                continue
+            (v,) = tuple(f.allowed)
+            c = f.steps[-1][1]
+            callee = c.callee or ""
+            if re.search(r"Try>::branch$", callee) and c.args:
+                x = fn.origin(c.args[0])
+                xty = c.targs[0] if c.targs else ""
+                head = ty_head(xty)
+                if head in ("Result", "Option"):
+                    good, bad = ("Ok", "Err") if head == "Result" else ("Some", "None")
+                    new.append(Fact("variant", f.sw_bb, place=None, ty=xty, allowed={good if v == "Continue" else bad}, steps=x, excluded=set(), derived="branch"))
+            elif re.search(r"Option::<T>::(ok_or|ok_or_else)$", callee) and c.args:
+                new.append(Fact("variant", f.sw_bb, place=None, ty="Option", allowed={"Some" if v == "Ok" else "None"}, steps=fn.origin(c.args[0]), excluded=set(), derived="ok_or"))
+            elif re.search(r"Result::<T, E>::ok$", callee) and c.args:
+                new.append(Fact("variant", f.sw_bb, place=None, ty="Result", allowed={"Ok" if v == "Some" else "Err"}, steps=fn.origin(c.args[0]), excluded=set(), derived="ok"))
+            elif re.search(r"bool>::(then_some|then)$", callee) and c.args:
+                new += bool_tested(fn, fn.origin(c.args[0]), v == "Some", f.sw_bb)
+            elif re.search(SAME_VARIANT, callee) and c.args and re.search(r"core::(option::Option|result::Result)", callee):
+                new.append(Fact("variant", f.sw_bb, place=None, ty=f.ty, allowed={v}, steps=fn.origin(c.args[0]), excluded=set(), derived="map"))
+        elif f.kind == "boolcall":
+            c = f.call
+            nm = c.name
+            callee = c.callee or ""
+            if c.args and re.search(r"core::(option::Option|result::Result)", callee) and nm in ("is_some", "is_none", "is_ok", "is_err"):
+                pos, neg = {"is_some": ("Some", "None"), "is_none": ("None", "Some"), "is_ok": ("Ok", "Err"), "is_err": ("Err", "Ok")}[nm]
+                new.append(Fact("variant", f.sw_bb, place=None, ty="", allowed={pos if f.truth else neg}, steps=fn.origin(c.args[0]), excluded=set(), derived=nm))
+        for n in new:
+            out.append(n)
+            work.append(n)
+    return out
+
+
 def facts_at(fn, prog, bb):
-    """All branch facts established by dominating switch edges of block bb."""
+    """All branch facts established by dominating switch edges of block bb (closed under `derive`)."""
     cache = fn.__dict__.setdefault("_facts_cache", {})
     if bb in cache:
         return cache[bb]
@@ -150,6 +214,7 @@ def facts_at(fn, prog, bb):
         for s, labs in by_succ.items():
             if fn.edge_dominates(d, s, bb):
                 out += edge_facts(fn, prog, d, labs)
+    out = derive(fn, prog, out)
     cache[bb] = out
     return out
 
